@@ -29,6 +29,15 @@ def same_function(fails, site, a, b, x, params, tol=1e-8):
     except Exception as e:
         fails.append(failure(PROPERTY, site, f"evaluation raised after the round trip: {type(e).__name__}: {str(e)[:120]}", params=params)); return
     fail_if(fails, PROPERTY, site, "object does not evaluate to the same function after the transformation boundary", ea, eb, tol=tol, params=params)
+    # measure-like objects: everything derived from the function (mass, mean) must agree as well, whatever caches travelled along
+    if hasattr(a, "log_integral") and hasattr(b, "log_integral"):
+        try:
+            la = np.asarray(a.log_integral()); lb = np.asarray(b.log_integral())
+            ma = np.asarray(a.integrate("x")); mb = np.asarray(b.integrate("x"))
+        except Exception as e:
+            fails.append(failure(PROPERTY, site, f"integration raised after the round trip: {type(e).__name__}: {str(e)[:120]}", params=params)); return
+        fail_if(fails, PROPERTY, site + ":log_integral", "mass differs after the transformation boundary", la, lb, tol=tol, params=params)
+        fail_if(fails, PROPERTY, site + ":integrate_x", "first moment differs after the transformation boundary", ma, mb, tol=tol, params=params)
 
 
 def build_objects(m, rng, R, D):
@@ -80,13 +89,36 @@ def case_roundtrips(R, D, populate):
                 else:
                     xs = x[:, :o.Dx]
                     same_function(fails, f"{tag}:{name}", oo.condition_on_x(xs), o.condition_on_x(xs), x[:, :o.Dy], params)
-            # to_dict / from_dict
+            # to_dict / from_dict; the rebuilt object is a first-class object again (jit argument, jit result)
             if hasattr(o, "to_dict"):
                 try:
                     o4 = type(o).from_dict(o.to_dict())
                     same_function(fails, f"from_dict:{name}", o4, o, x, params)
                 except Exception as e:
-                    fails.append(failure(PROPERTY, f"from_dict:{name}", f"from_dict(to_dict()) raised: {type(e).__name__}: {str(e)[:160]}", params=params))
+                    fails.append(failure(PROPERTY, f"from_dict:{name}", f"from_dict(to_dict()) raised: {type(e).__name__}: {str(e)[:160]}", params=params)); o4 = None
+                if o4 is not None:
+                    try:
+                        ev_j = jax.jit(lambda z, xx: z.evaluate_ln(xx))(o4, x)
+                        fail_if(fails, PROPERTY, f"from_dict:{name}:jit-arg", "rebuilt object as a jit argument evaluates differently", np.asarray(ev_j), np.asarray(o.evaluate_ln(x)), params=params)
+                        same_function(fails, f"from_dict:{name}:jit-result", jax.jit(lambda z: z)(o4), o, x, params)
+                    except Exception as e:
+                        fails.append(failure(PROPERTY, f"from_dict:{name}:jit", f"the object rebuilt by from_dict cannot pass a jit boundary: {type(e).__name__}: {str(e)[:160]}", params=params))
+            # .replace(field=value): every other constructor argument is kept
+            try:
+                d = 0.37
+                if name in ("general", "onerank", "linear", "constant", "measure", "diagmeasure"):
+                    o5 = o.replace(ln_beta=o.ln_beta + d)
+                    fail_if(fails, PROPERTY, f"replace:{name}", "replace(ln_beta=ln_beta+d) does not evaluate to the old function + d (another argument was lost or changed)",
+                            np.asarray(o5.evaluate_ln(x)), np.asarray(o.evaluate_ln(x)) + d, params=params)
+                elif name in ("pdf", "diagpdf"):
+                    o5 = o.replace(mu=o.mu + d)
+                    fail_if(fails, PROPERTY, f"replace:{name}", "replace(mu=mu+d) is not the shifted density", np.asarray(o5.evaluate_ln(x + d)), np.asarray(o.evaluate_ln(x)), params=params)
+                elif name in ("cond-full", "cond-diag"):
+                    o5 = o.replace(M=o.M * 1.0)
+                    xs = x[:, :o.Dx]
+                    same_function(fails, f"replace:{name}", o5.condition_on_x(xs), o.condition_on_x(xs), x[:, :o.Dy], params)
+            except Exception as e:
+                fails.append(failure(PROPERTY, f"replace:{name}", f".replace raised: {type(e).__name__}: {str(e)[:160]}", params=params))
         return fails
     return Case(label, fn)
 
